@@ -72,7 +72,8 @@ class TwoTimeBathCorrelations(BaseAPIClass):
             + "process tensor or given as an argument."
 
         self._process_tensor = process_tensor
-        self._initial_state = initial_state
+        self._initial_state = \
+            None if initial_state is None else np.array(initial_state)
 
         if system_correlations is None:
             self._system_correlations = np.zeros((0, 0), dtype=NpDtype)
